@@ -114,6 +114,38 @@ def build_pool():
                     resp=tutils.tresp(content=b"...---", status_code=200, headers=H(((b"y", b"--"),)))),
         marked="-", comment="  ", metadata={})
     add(tflow.ttcpflow(messages=[tcp.TCPMessage(True, b"2024", 1.0), tcp.TCPMessage(False, b"----", 2.0)]))
+    # Content-Encoding x body: unknown / known-but-wrong / several codings / identity / correct, on the request, the response,
+    # both; the plain and the decoded texts carry different needles and the compressed bytes carry neither
+    import gzip, zlib, brotli
+    try: from compression import zstd
+    except ImportError: from backports import zstd
+    PLAIN, DEC = b"needle-plain hello 123", b"needle-decoded world 456"
+    def msgs(rq_ce, rq_body, rs_ce, rs_body, status=200):
+        rh = [(b"host", b"enc.example")] + ([(b"Content-Encoding", rq_ce)] if rq_ce is not None else [])
+        sh = [(b"content-type", b"text/plain")] + ([(b"content-encoding", rs_ce)] if rs_ce is not None else [])
+        return tflow.tflow(req=tutils.treq(host="enc.example", port=80, path=b"/enc", method=b"POST", headers=H(tuple(rh)), content=rq_body),
+                           resp=tutils.tresp(status_code=status, headers=H(tuple(sh)), content=rs_body))
+    gz = gzip.compress(DEC, mtime=0)
+    add(msgs(b"aws-chunked", PLAIN, None, b"ok"))
+    add(msgs(None, b"ask", b"aws-chunked", PLAIN))
+    add(msgs(b"bogus", PLAIN, b"utf-8", PLAIN))
+    add(msgs(b"gzip", PLAIN, None, b"ok"))
+    add(msgs(None, b"ask", b"gzip", PLAIN, 404))
+    add(msgs(b"gzip", PLAIN, b"gzip", PLAIN))
+    add(msgs(None, b"ask", b"deflate", PLAIN))
+    add(msgs(None, b"ask", b"br", PLAIN))
+    add(msgs(b"zstd", PLAIN, None, b"ok"))
+    add(msgs(None, b"ask", b"gzip, br", gz))
+    add(msgs(b"identity", PLAIN, b"identity", DEC))
+    add(msgs(b"gzip", gz, None, b"ok"))
+    add(msgs(None, b"ask", b"GZIP", gz))
+    add(msgs(b"gzip", gz, b"gzip", gzip.compress(PLAIN, mtime=0)))
+    add(msgs(None, b"ask", b"deflate", zlib.compress(DEC)))
+    add(msgs(None, b"ask", b"br", brotli.compress(DEC)))
+    add(msgs(None, b"ask", b"zstd", zstd.compress(DEC)))
+    add(msgs(b"gzip", None, b"br", None))                       # streamed bodies with a coding announced
+    add(msgs(b"", PLAIN, b"", DEC))                             # empty Content-Encoding value
+    f = msgs(None, b"ask", b"gzip", PLAIN); f.websocket = tflow.twebsocket(); add(f)
     return P
 
 
@@ -128,11 +160,45 @@ def _hdr_lines(msg):
     return [k + b": " + v for k, v in msg.headers.fields]      # "Patterns are matched against 'name: value' strings"
 
 
+def ref_decode(coding, raw):
+    """independent content decoder (stdlib / brotli / zstd directly, not Message.get_content): the decoded bytes, or None
+    when the coding cannot be applied (unknown coding, several codings, bytes that are not so encoded)"""
+    import gzip as _gzip, zlib as _zlib
+    c = coding.lower()
+    try:
+        if c in ("identity", "none"): return raw
+        if c == "gzip":
+            d = _zlib.decompressobj(47); return d.decompress(raw) + d.flush()     # gzip or zlib framing
+        if c == "deflate":
+            try: return _zlib.decompress(raw)
+            except _zlib.error: return _zlib.decompress(raw, -15)
+        if c == "br":
+            import brotli; return brotli.decompress(raw)
+        if c == "zstd":
+            try: from compression import zstd as _z
+            except ImportError: from backports import zstd as _z
+            return _z.decompress(raw)
+    except Exception:
+        return None
+    return None
+
+
+def ref_body(msg):
+    """what ~b/~bq/~bs search in an HTTP message: the decoded body when the Content-Encoding can be applied, the body AS
+    RECEIVED when it cannot (or there is none); None when there is no body (streamed)"""
+    raw = msg.raw_content
+    if raw is None: return None
+    ce = msg.headers.get("content-encoding")
+    if not ce: return raw
+    d = ref_decode(ce, raw) if raw else raw
+    return raw if d is None else d
+
+
 def _bodies(f, want_req, want_resp):
     out = []
     if isinstance(f, http.HTTPFlow):
-        if want_req and f.request and f.request.get_content(strict=False) is not None: out.append(f.request.get_content(strict=False))
-        if want_resp and f.response and f.response.get_content(strict=False) is not None: out.append(f.response.get_content(strict=False))
+        if want_req and f.request and ref_body(f.request) is not None: out.append(ref_body(f.request))
+        if want_resp and f.response and ref_body(f.response) is not None: out.append(ref_body(f.response))
         if f.websocket:
             out += [m.content for m in f.websocket.messages if (want_req if m.from_client else want_resp)]
     elif isinstance(f, (tcp.TCPFlow, udp.UDPFlow)):
@@ -285,7 +351,7 @@ ARGS = ["GET", "get", "POST", "example", "example\\.com", "address", "hello", "w
         "html$", "qvalue$", "^header: qvalue$", ".", ".*", "", "a|b", "hello|GET", "\\d+", "\\w+@", "foo.*bar", "[a-c]+", "it's", "\"q\"",
         "a b", "a\tb", "line2", "first line$", "^second", "second line", "key: value", ":star:", "x", "star", "^$", "^", "café",
         "шгн", "é", "path", "/path$", "22$", "127\\.0", "dns.google", "google$", "(a|b)", "\\(a\\|b\\)", "!x", "&", "|",
-        "!", "a&b", "a!b", "~q", "\\\\", "\\.", "\\", "it\\'s", "^GET$", "png", "image/", "\\x00", " ", "a\x0bb", "n: 200", "8\\.8", "me$"] + [a for pair in CASE_PAIRS for a in pair]
+        "!", "a&b", "a!b", "~q", "\\\\", "\\.", "\\", "it\\'s", "^GET$", "png", "image/", "\\x00", " ", "a\x0bb", "n: 200", "8\\.8", "me$", "needle", "needle-plain", "needle-decoded", "^needle-plain hello 123$", "\\x1f\\x8b", "world 456$", "plain|decoded"] + [a for pair in CASE_PAIRS for a in pair]
 
 
 def gen_atom(rng):
@@ -458,18 +524,23 @@ class Check(PropertyCheck):
                   "normal form); the precedence statements not_tighter_than_and, and_tighter_than_or, juxtaposition_loosest; and "
                   "evaluation as the Boolean algebra of the leaf verdicts for every tree: eval_not / eval_and_all / eval_or_any, "
                   "eval_hom (homomorphic extension of the leaf valuation), eval_congr (depends on leaves only through their "
-                  "verdicts), double negation, De Morgan, flattening, permutation invariance, absorption of the one-member wrapper. "
+                  "verdicts), double negation, De Morgan, flattening, permutation invariance, absorption of the one-member wrapper, "
+                  "eval_total; the body operators' reading of an HTTP message (`searched` = get_content(strict=False) with the "
+                  "content decoder as a parameter): body_searched / body_searched_some / bodyLeaf_total - a verdict on every flow, "
+                  "searching the decoded bytes when the Content-Encoding can be applied and the bytes as received when it cannot. "
                   "The model transcribes the pyparsing grammar of flowfilter._make (MatchFirst order of the operator tables, "
                   "WordEnd(alphanums), CharsNotIn words, QuotedString unescaping as pyparsing 3.3.2 really does it, "
                   "infix_notation([!,&,|]) inside OneOrMore, groups holding a whole expression, tabs kept); the operator tables are "
                   "regenerated from flowfilter.py on every run and their side conditions re-proved by evaluation. Tie: the compiled "
                   "model is compared with the real flowfilter.parse on every generated rendering, on sequences, and on mutated/raw "
-                  "strings (same tree or same refusal, same verdicts on a pool of 48 flows of every type when fed the real leaves' "
+                  "strings (same tree or same refusal, same verdicts on a pool of 68 flows of every type when fed the real leaves' "
                   "verdicts); every generated layout is also sent as a term of the Lean concrete syntax and must print (Lean "
                   "`render`) to the tested text, satisfy the Lean `WF` and denote the tested tree; the Lean `print` of every "
                   "generated tree must equal the harness' canonical text, which the REAL parser must read back as the tree (the "
                   "model predicts the string, the code parses it); the real code is checked directly against the tree that was "
-                  "written and an independent reference reading of every operator.")
+                  "written and an independent reference reading of every operator (bodies decoded by an independent decoder), a filter "
+                  "call that raises on any pool flow is a failure of its own clause, and for every HTTP message of the pool the model "
+                  "predicts, from the raw bytes, the header and the independent decoder's outcome, what get_content(strict=False) returns.")
     level_note = ("still assumed / outside the proofs: the regex engine is a parameter (`compiles`, per-leaf verdicts `Sem`): the "
                   "theorems hold for every engine, and the generator only renders compiling regexes; WHICH PART OF A FLOW each "
                   "operator's regex is applied to, and what the unary operators test, is outside the Lean model and is checked only "
@@ -487,13 +558,16 @@ class Check(PropertyCheck):
             "precedence levels (writable without parentheses, up to 4-5 levels deep), 25% arbitrary nesting up to the tier depth "
             "(4 quick / 6 thorough), each rendered once with random layout under a per-case budget of parenthesised groups "
             "(quick 80% none / 17% one / 3% two levels; thorough 50/30/16/4% up to three levels; a case whose real parse exceeds 4 s / 12 s is skipped); thorough first enumerates every "
-            "tree of depth <=2 over 5 atoms (one per leaf kind) in canonical and random layout; first of all, for every regex operator, pairs of regexes that differ only in the case of an escape class "
+            "tree of depth <=2 over 5 atoms (one per leaf kind) in canonical and random layout; first of all one `body` case per HTTP message of the pool (what the body operators search) and the body operators "
+            "alone and under every connective with needles that occur only in the bytes as received / only in the decoded bytes / "
+            "nowhere, evaluated on the whole pool (Content-Encoding unknown, known-but-wrong, several codings, identity, empty, "
+            "correct gzip/deflate/br/zstd, streamed; on the request, the response, both); then, for every regex operator, pairs of regexes that differ only in the case of an escape class "
             "(\\d/\\D, \\w/\\W, \\s/\\S, \\b/\\B, alone and inside longer regexes) as SEQUENCE cases (both orders, parsed and "
             "evaluated one after the other in one process) and inside one tree, plus ~4% random sequences later - the verdict "
             "must not depend on what was parsed before; 15% mutated renderings, raw token "
             "soups and quoted-escape soups for the model tie only. distinct = distinct text; non-trivial = not a bare unary code.")
     budget = {"quick": 8000, "thorough": 200000}
-    time_budget = {"quick": 18, "thorough": 540}
+    time_budget = {"quick": 12, "thorough": 540}
     fingerprints = ["mitmproxy.flowfilter:_make", "mitmproxy.flowfilter:parse", "mitmproxy.flowfilter:FAnd", "mitmproxy.flowfilter:FOr",
                     "mitmproxy.flowfilter:FNot", "mitmproxy.flowfilter:_Rex.__init__", "mitmproxy.flowfilter:_Int.__init__",
                     "mitmproxy.flowfilter:_Action.make", "mitmproxy.flowfilter:FUrl.make"]
@@ -554,7 +628,13 @@ class Check(PropertyCheck):
         maxd = 4 if tier == "quick" else 6
         if tier == "thorough":
             for c in self.exhaustive(tier): yield c
-        for c in self.pair_cases(rng, 5 if tier == "quick" else len(CASE_PAIRS)): yield c
+        if self.pool is None: self.setup(tier)
+        for i, f in enumerate(self.pool):
+            if isinstance(f, http.HTTPFlow):
+                yield {"kind": "body", "flow": i, "side": "request"}
+                if f.response: yield {"kind": "body", "flow": i, "side": "response"}
+        for c in self.body_cases(rng, tier): yield c
+        for c in self.pair_cases(rng, 3 if tier == "quick" else len(CASE_PAIRS)): yield c
         # pyparsing needs ~10 ms for an expression without parentheses, ~100 ms with one group, 0.3-1 s with two levels
         GROUPS = {"quick": [(80, (0, 0)), (17, (1, 1)), (3, (2, 3))],
                   "thorough": [(50, (0, 0)), (30, (1, 2)), (16, (2, 3)), (4, (3, 4))]}[tier]
@@ -613,6 +693,21 @@ class Check(PropertyCheck):
             if c: items.append(c)
         return {"kind": "seq", "items": items} if len(items) >= 2 else None
 
+    def body_cases(self, rng, tier="thorough"):
+        """the body operators, alone and under every connective, with needles that occur only in the bytes as received,
+        only in the decoded bytes, in neither - evaluated on the whole pool (all Content-Encoding situations)"""
+        args = ["needle-plain", "needle-decoded", "needle", "\\x1f\\x8b", "hello", "nomatch", "^needle-plain hello 123$"]
+        if tier == "quick": args = rng.sample(args, 4)
+        for code in ("b", "bq", "bs"):
+            for a in args:
+                leaf = ["R", code, a]
+                other = ["R", rng.pick(["b", "bq", "bs"]), rng.pick(args)]
+                forms = [leaf, ["N", leaf], ["A", [["N", leaf], ["I", "c", 200]]], ["O", [["U", "q"], leaf]],
+                         ["A", [leaf, other]], ["O", [["N", other], leaf]]]
+                for t in (forms if tier != "quick" else [leaf] + rng.sample(forms[1:], 2)):
+                    c = self._case(t, rng, groups=(0, 0), p_red=0.0)
+                    if c: yield c
+
     def pair_cases(self, rng, per_op):
         """every regex operator with `per_op` of the case-differing pairs: the two spellings one after the other in both
         orders (sequence cases), and both in one tree in both orders"""
@@ -668,6 +763,8 @@ class Check(PropertyCheck):
         raw cases: one character dropped"""
         from common.prng import Rng
         rng = Rng(7)
+        if case.get("kind") == "body":
+            return
         if case.get("kind") == "seq":
             return      # not shrunk: a shorter sequence would be judged in a different history of the process
         if case.get("kind") == "render":
@@ -737,7 +834,7 @@ class Check(PropertyCheck):
         if items is None: return self._mobs_one(case, replies)
         out, k = [], 0
         for it in items:
-            n = 1 + (1 if it.get("conc") else 0) + (1 if it["kind"] == "render" else 0)
+            n = 1 if it["kind"] == "body" else 1 + (1 if it.get("conc") else 0) + (1 if it["kind"] == "render" else 0)
             out.append(self._mobs_one(it, replies[k:k + n])); k += n
         return out
 
@@ -782,6 +879,9 @@ class Check(PropertyCheck):
 
     def _impl_one(self, case):
         if self.pool is None: self.setup("quick")
+        if case["kind"] == "body":
+            b = getattr(self.pool[case["flow"]], case["side"]).get_content(strict=False)
+            return {"searched": "none" if b is None else (b.hex() or "-")}
         s = untx(case["s_hex"])
         try:
             flt = self._parse_limited(s)
@@ -789,8 +889,17 @@ class Check(PropertyCheck):
             self._last_atoms[case["s_hex"]] = []
             return {"shape": "reject", "v": None, "atoms": []}
         atoms = atoms_of_tok(flt, [])
-        bits = lambda t: "".join("1" if t(f) else "0" for f in self.pool)
-        obs = {"shape": shape_of_tok(flt), "v": bits(flt), "atoms": [bits(a) for a in atoms]}
+        raised = []
+        def bits(t, top=False):
+            out = []
+            for i, f in enumerate(self.pool):
+                try: out.append("1" if t(f) else "0")
+                except Exception as e:                      # the filter call must yield a Boolean on every flow
+                    out.append("X")
+                    if top: raised.append([i, type(e).__name__])
+            return "".join(out)
+        obs = {"shape": shape_of_tok(flt), "v": bits(flt, True), "atoms": [bits(a) for a in atoms]}
+        if raised: obs["raised"] = raised
         if case["kind"] == "render":
             # the canonical text the Lean `print` predicts for the tree, through the real parser (when it costs no more
             # parenthesised groups than the rendering itself did)
@@ -831,7 +940,17 @@ class Check(PropertyCheck):
 
     # ---- the property, as a predicate over the implementation's observable -------------------
     def _oracle_one(self, case, obs):
-        if case["kind"] != "render": return []
+        if case["kind"] == "body":
+            # what a body operator searches: decoded when the Content-Encoding can be applied, as received when it cannot
+            msg = getattr(self.pool[case["flow"]], case["side"])
+            want = ref_body(msg)
+            want = "none" if want is None else (want.hex() or "-")
+            return [] if obs["searched"] == want else ["body: %s of pool flow #%d is searched as %s, documented %s"
+                                                      % (case["side"], case["flow"], obs["searched"][:60], want[:60])]
+        if case["kind"] != "render":
+            # a raw string that parses is a filter too: its call must yield a Boolean on every flow
+            return ["raised %s: %r on pool flow #%d (%s)" % (t, untx(case["s_hex"]), i, type(self.pool[i]).__name__)
+                    for i, t in obs.get("raised", [])[:1]]
         tree = case["tree"]
         # "Every filter expression built from the documented operators ... is accepted"
         if obs["shape"] == "reject":
@@ -844,9 +963,12 @@ class Check(PropertyCheck):
         # the same for the canonical spelling of the tree (parse . print = id)
         if obs.get("p_shape") is not None and obs["p_shape"] != want:
             fails.append("print: canonical text %r parsed as %s, written as %s" % (canon_print(tree)[0], obs["p_shape"], want))
-        # "for every flow its verdict equals the documented semantics"
+        # "for every flow its verdict ..." - there must be a verdict: a filter call that raises has none
+        for i, t in obs.get("raised", [])[:1]:
+            fails.append("raised %s: %r on pool flow #%d (%s)" % (t, untx(case["s_hex"]), i, type(self.pool[i]).__name__))
+        # "... equals the documented semantics"
         ref = "".join("1" if x else "0" for x in self.ref_eval(tree))
-        if obs["v"] != ref:
+        if obs["v"] != ref and not obs.get("raised"):
             i = next(i for i in range(len(ref)) if obs["v"][i] != ref[i])
             fails.append("verdict: %r on pool flow #%d (%s) is %s, documented semantics gives %s"
                          % (untx(case["s_hex"]), i, type(self.pool[i]).__name__, obs["v"][i], ref[i]))
@@ -909,6 +1031,8 @@ class Check(PropertyCheck):
             (nohdr, obs_of(nohdr["tree"], flip(nohdr_doc, 0)), "verdict:", None),
             (ct, obs_of(ct["tree"], flip(ct_doc, 1)), "verdict:", None),
             (seq, seq_obs, "#1 verdict:", None),
+            # a ~h tree whose evaluation raised: another clause, never excused
+            (wit, dict(obs_of(wit["tree"], "X" + crlf[1:]), raised=[[0, "ValueError"]]), "raised", None),
         ]
         for case, obs, kind, want in triples:
             f = clause(case, obs, kind)
@@ -918,6 +1042,14 @@ class Check(PropertyCheck):
 
     # ---- model tie ---------------------------------------------------------------------------------
     def _lines_one(self, case):
+        if case["kind"] == "body":
+            # the model (Model/C42_Body.lean `searched`) is given the raw bytes, the header value and the outcome of the
+            # independent decoder, and predicts what is searched
+            msg = getattr(self.pool[case["flow"]], case["side"])
+            raw, ce = msg.raw_content, msg.headers.get("content-encoding")
+            dec = None if (raw is None or not ce) else (ref_decode(ce, raw) if raw else raw)
+            return ["bd %s %s %s" % ("none" if raw is None else (raw.hex() or "-"), "none" if ce is None else tx(ce),
+                                     "fail" if dec is None else (dec.hex() or "-"))]
         # the per-atom verdicts (the `Sem` parameter of the model's eval) come from the real atom objects, left to right
         atoms = self._last_atoms.get(case["s_hex"])
         if atoms is None: atoms = self._impl_one(case)["atoms"]
@@ -931,6 +1063,7 @@ class Check(PropertyCheck):
         return lines
 
     def _mobs_one(self, case, replies):
+        if case["kind"] == "body": return replies[0]
         r, extra = replies[0], list(replies[1:])      # extra: the `rn` reply (if the case carries its layout), the `pr` reply
         if r == "reject": return ["reject", None] + extra
         shape, _, v = r.partition(" ")
@@ -941,6 +1074,7 @@ class Check(PropertyCheck):
         return [shape, v if v != "-" else None] + extra
 
     def _iview_one(self, case, obs):
+        if case["kind"] == "body": return obs["searched"]
         out = [obs["shape"], obs["v"]]
         if case.get("conc"):
             s = untx(case["s_hex"]); trail = untx(case["trail_hex"])
@@ -951,10 +1085,12 @@ class Check(PropertyCheck):
         return out
 
     def _classify_one(self, case, obs):
+        if case["kind"] == "body": return "body:%d:%s" % (case["flow"], case["side"])
         if case["kind"] == "render" and tree_ops(case["tree"]) == 0 and case["tree"][0] == "U": return None
         return case["s_hex"]
 
     def _branches_one(self, case, obs):
+        if case["kind"] == "body": return ["body", "body:" + ("none" if obs["searched"] == "none" else "some")]
         out = [case["kind"], "accepted" if obs["shape"] != "reject" else "rejected"]
         s = untx(case["s_hex"])
         if case["kind"] == "render":
